@@ -95,6 +95,34 @@ func genPassword(r *vrng) string {
 	return strings.Join(parts, []string{"", "", "-", " ", "!", "_"}[r.Intn(6)])
 }
 
+// vSensitive: passwords whose estimate is known to change under the transformations a "hardening" of
+// the policy call might apply (cut at N bytes, trimmed, case-folded, NUL-terminated, a matcher left out).
+var vSensitive []string
+
+func init() {
+	for _, n := range []int{8, 16, 20, 32, 50, 64, 72, 100, 128} {
+		body := strings.Repeat("password", n/8+1)[:max(n-2, 0)]
+		vSensitive = append(vSensitive, body+"unrecognizable", strings.Repeat("a", n)+"Xk9#mQ2$vL7&pR4")
+	}
+	vSensitive = append(vSensitive, strings.Repeat("a", 257), strings.Repeat("1", 300), strings.Repeat("Xk9#mQ2$vL7&pR4-", 17),
+		"  password  ", "password\n", " G7$kq!v9Zp#2mL", "G7$KQ!V9ZP#2ML", "PASSWORD", "monkey\x00G7$kq!v9Zp#2mL",
+		"8@$3b4|1", "8@$3b4|1c0mpu73r", "p4$$w0rd", "1l0v3y0u-m0nk3y", "drowssap-llabesab", "qwertyuiop-asdfghjkl", "19891231-2024")
+}
+
+// bord: which side of the anchor's own estimate the threshold goes (0 = at it, 1 = just above).
+type sweepPlan struct {
+	pw   string
+	kind string
+	b    int
+}
+
+func bord(sp *sweepPlan, r *vrng) int {
+	if sp != nil {
+		return sp.b
+	}
+	return r.Intn(2)
+}
+
 func suiteV17(c *vctx) {
 	r := c.r
 	// (1) the condition parser and the constructor
@@ -228,27 +256,72 @@ func suiteV17(c *vctx) {
 		nag = 40
 	}
 	nag = max(nag/c.nshards, 1)
-	for ai := 0; ai < nag; ai++ {
+	// the sweep: every password of vSensitive x every kind of condition x the threshold exactly at and just
+	// above its own estimate gets an agent of its own (a few writes of that password each), dealt out
+	// over the shards — whatever a change to the policy call does to the estimate of one of them shows
+	var sweep []sweepPlan
+	{
+		idx := 0
+		for _, pw := range vSensitive {
+			for _, kind := range []string{"score", "entropy", "time"} {
+				for b := 0; b < 2; b++ {
+					if c.mine(idx) {
+						sweep = append(sweep, sweepPlan{pw, kind, b})
+					}
+					idx++
+				}
+			}
+		}
+	}
+	for ai := 0; ai < nag+len(sweep); ai++ {
 		kind := []string{"score", "entropy", "time"}[(ai+c.shard)%3]
 		// thresholds around the values actually observed
 		pwU := genPassword(r)
+		var sp *sweepPlan
+		if ai >= nag {
+			sp = &sweep[ai-nag]
+			kind = sp.kind
+		}
 		// a third of the agents get their threshold placed at the estimate of a password that contains
 		// the user's name in some letter case: the same password is then written for her and for others
 		nameFam := []string{"Alice.Wonderland", "ALICE-2024-x", "aLiCe", "Alice", "alice", "G7$kq-ALICE-zP", "4L1C3-alice", "ecila.Alice9"}
 		planned := ""
-		if r.Intn(3) == 0 {
+		// the class of an agent is fixed by its position (every class x every kind occurs in every run):
+		// 0 = name family, 1 = a password whose estimate changes when it is cut, trimmed, case-folded or
+		// read without a matcher (the threshold is put exactly at / just above ITS estimate and it is
+		// written again and again through every path), 2 = thresholds around a random password
+		class := (ai + c.shard/3) % 3
+		anchored := false
+		if sp != nil {
+			class = 3
+			pwU, anchored = sp.pw, true
+		}
+		switch class {
+		case 0:
 			planned = nameFam[r.Intn(len(nameFam))]
 			pwU = planned
+		case 1:
+			pwU = vSensitive[r.Intn(len(vSensitive))]
+			anchored = true
 		}
 		z0 := zxcvbn.PasswordStrength(pwU, []string{"alice", "whawty"})
 		var thr uint64
 		switch kind {
 		case "score":
 			thr = uint64(r.Intn(5))
+			if anchored {
+				thr = uint64(min(4, z0.Score+bord(sp, r)))
+			}
 		case "entropy":
 			thr = uint64(math.Max(0, math.Floor(z0.Entropy)+float64(r.Intn(3)-1)))
+			if anchored {
+				thr = uint64(math.Floor(z0.Entropy) + float64(bord(sp, r)))
+			}
 		default:
 			thr = uint64(math.Max(0, math.Min(1e15, math.Floor(z0.CrackTime)+float64(r.Intn(3)-1))))
+			if anchored {
+				thr = uint64(math.Min(1e15, math.Floor(z0.CrackTime)+float64(bord(sp, r))))
+			}
 		}
 		if planned != "" {
 			// … strictly between her estimate and that of a user whose name is not in it, where they differ
@@ -295,6 +368,9 @@ func suiteV17(c *vctx) {
 		if c.thorough() {
 			nw = 300
 		}
+		if sp != nil {
+			nw = 3
+		}
 		cli := 0
 		type forcedWrite struct{ path, user, pw string }
 		var forced []forcedWrite
@@ -303,7 +379,13 @@ func suiteV17(c *vctx) {
 			if r.Intn(4) == 0 {
 				pw += fmt.Sprint(r.Intn(100))
 			}
+			if (anchored || planned != "") && (r.Intn(3) == 0 || sp != nil) {
+				pw = pwU // the password the threshold was placed at
+			}
 			path := []string{"iface-add", "iface-update", "http-add", "http-update-admin", "http-update-self", "http-update-oldpw", "cli-add", "cli-update", "iface-init", "cli-init"}[r.Intn(10)]
+			if sp != nil {
+				path = []string{"iface-add", "iface-update", "http-add", "http-update-admin", "http-update-self", "http-update-oldpw"}[r.Intn(6)]
+			}
 			user := "alice"
 			if strings.HasSuffix(path, "add") {
 				user = fmt.Sprintf("n%d", k)
